@@ -717,7 +717,16 @@ static void run(size_t baseDepth) {
     CInst& in = fr->f->insts[fr->pc];
     if ((++pathInstr & 0xFFFFF) == 0) {
       if (SH->stop.load()) endProcess(0);
-      if (pathInstr > OPT.maxInstrPath || nowS() - T0 > OPT.wallCap) { SH->budgetHit++; endProcess(0); }
+      if (pathInstr > OPT.maxInstrPath) {
+        SH->budgetHit++;
+        if (sigCount("budget:instr") <= 3) {
+          std::string f = OPT.out + "/budget_" + std::to_string(getpid()) + ".json";
+          FILE* fp = fopen(f.c_str(), "w");
+          if (fp) { fprintf(fp, "{\"kind\":\"instruction-budget\",\"instructions\":%llu,\"stack\":\"%s\",\"inputs\":%s}\n", (unsigned long long)pathInstr, jsonEsc(stackString(16)).c_str(), inputsJson(MODEL).c_str()); fclose(fp); }
+        }
+        endProcess(0);
+      }
+      if (nowS() - T0 > OPT.wallCap) { SH->budgetHit++; endProcess(0); }
     }
 #define OP(i) getOp(*fr, in.ops[i])
 #define SET(v) do { REGS[fr->regBase + in.dst] = (v); fr->pc++; } while (0)
